@@ -164,10 +164,116 @@ def emit(st):
     L.append('')
     return L
 
+# ---- canonical shape of the impl bodies (AST level) and the pinned text of the generic impls ----------------------
+# The codec combinators (`Codec.seq/arr/opt/u64 …`, Sucds/Model/Serial.lean) are the hand-written model of
+#   * a struct impl that does nothing but (de)serialize its fields one after the other through `&mut writer/reader`,
+#   * the generic impls of `Option<S>`, `Vec<S>`, the integers and `bool` in src/serial.rs, src/serial/primitive.rs.
+# Any other statement in a struct impl (buffering, validation, masking, a different I/O call) or any change to the
+# token text of the two generic files means the theorems about the generated codecs no longer speak about the code:
+# the translator refuses (exit 2) and the check treats it as a broken proof obligation.
+sys.path.insert(0, os.path.dirname(os.path.abspath(__file__)))
+import hashlib
+from rustparse import parse_file, lex, ParseError
+
+def strip(e):
+    while isinstance(e, tuple) and e and e[0] == 'paren': e = e[1]
+    return e
+
+def is_path(e, *segs):
+    e = strip(e); return e[0] == 'path' and list(e[1]) == list(segs)
+
+def io_arg_ok(args, name):
+    if len(args) != 1: return False
+    a = strip(args[0])
+    return (a[0] == 'unary' and a[1] == '&mut' and is_path(a[2], name)) or is_path(a, name)
+
+def ser_call(e, names):
+    """`self.<f>.serialize_into(&mut writer)?`  -> f | None"""
+    e = strip(e)
+    if e[0] != 'try': return None
+    c = strip(e[1])
+    if c[0] == 'mcall' and c[2] == 'serialize_into' and io_arg_ok(c[3], 'writer'):
+        r = strip(c[1])
+        if r[0] == 'field' and is_path(r[1], 'self') and r[2] in names: return r[2]
+    return None
+
+def canonical_serialize(fn, names, where):
+    body = fn[5]; stmts, tail = body[1], body[2]
+    order = []
+    if not stmts and tail is not None:      # delegation: `self.f.serialize_into(writer)`
+        c = strip(tail)
+        if c[0] == 'mcall' and c[2] == 'serialize_into' and io_arg_ok(c[3], 'writer') and strip(c[1])[0] == 'field': return [strip(c[1])[2]]
+        die('%s: serialize_into is not in canonical form' % where)
+    if not stmts or stmts[0][0] != 'let' or stmts[0][1] != ('pid', 'mem', True, False): die('%s: serialize_into does not start with `let mut mem = …`' % where)
+    init = strip(stmts[0][3])
+    if init == ('int', 0, None): pass
+    else:
+        f = ser_call(init, names)
+        if f is None: die('%s: serialize_into: unexpected initialiser of `mem`' % where)
+        order.append(f)
+    for st in stmts[1:]:
+        e = strip(st[1]) if st[0] == 'expr' else None
+        f = ser_call(e[3], names) if e is not None and e[0] == 'assign' and e[1] == '+=' and is_path(e[2], 'mem') else None
+        if f is None: die('%s: serialize_into contains a statement other than `mem += self.<field>.serialize_into(&mut writer)?;`' % where)
+        order.append(f)
+    t = strip(tail) if tail is not None else None
+    if not (t is not None and t[0] == 'call' and is_path(t[1], 'Ok') and len(t[2]) == 1 and is_path(t[2][0], 'mem')): die('%s: serialize_into does not end with `Ok(mem)`' % where)
+    return order
+
+def canonical_deserialize(fn, names, where):
+    body = fn[5]; stmts, tail = body[1], body[2]
+    order = []
+    for st in stmts:
+        ok = False
+        if st[0] == 'let' and st[1][0] == 'pid' and not st[1][2] and st[3] is not None:
+            e = strip(st[3])
+            if e[0] == 'try':
+                c = strip(e[1])
+                if c[0] == 'call' and strip(c[1])[0] == 'path' and strip(c[1])[1][-1] == 'deserialize_from' and io_arg_ok(c[2], 'reader') and st[1][1] in names:
+                    order.append(st[1][1]); ok = True
+        if not ok: die('%s: deserialize_from contains a statement other than `let <field> = <Type>::deserialize_from(&mut reader)?;`' % where)
+    t = strip(tail) if tail is not None else None
+    if not (t is not None and t[0] == 'call' and is_path(t[1], 'Ok') and len(t[2]) == 1 and strip(t[2][0])[0] == 'struct'): die('%s: deserialize_from does not end with `Ok(Self { … })`' % where)
+    lit = strip(t[2][0])
+    for fname, fe in lit[2]:
+        if not is_path(fe, fname): die('%s: deserialize_from fills field %s with something other than the value read for it' % (where, fname))
+    if lit[3] is not None: die('%s: deserialize_from uses struct update syntax' % where)
+    return order
+
+def check_canonical(st):
+    try:
+        items = parse_file(os.path.join(REPO, st['path']))
+    except (ParseError, OSError) as e:
+        die('%s: %s' % (st['path'], e))
+    names = [f for f, _ in st['fields']]
+    for it in items:
+        if it[0] == 'impl' and it[2] is not None and it[2][0] == 'path' and it[2][1][-1] == 'Serializable' and it[3][0] == 'path' and it[3][1][-1] == st['rust']:
+            fns = dict((x[1], x) for x in it[4] if x[0] == 'fn')
+            extra = set(fns) - {'serialize_into', 'deserialize_from', 'size_in_bytes'}
+            if extra: die('%s: impl Serializable for %s overrides %s' % (st['path'], st['rust'], sorted(extra)))
+            so = canonical_serialize(fns['serialize_into'], names, '%s: %s' % (st['path'], st['rust']))
+            do = canonical_deserialize(fns['deserialize_from'], names, '%s: %s' % (st['path'], st['rust']))
+            if so != st['ser'] or do != st['de']: die('%s: %s: field orders read from the text and from the AST differ' % (st['path'], st['rust']))
+            return
+    die('%s: impl Serializable for %s not found by the parser' % (st['path'], st['rust']))
+
+# token text (comments and layout ignored) of the generic impls the combinators were written for
+PINNED = {'src/serial.rs': 'd9ec7f8b7fd3', 'src/serial/primitive.rs': '1985e0809dab'}
+def token_sha(path):
+    toks = lex(open(os.path.join(REPO, path)).read())
+    return hashlib.sha256(' '.join(str(t.val) for t in toks).encode()).hexdigest()[:12]
+
 try:
     parsed = [parse_struct(*s) for s in STRUCTS]
 except (OSError, ValueError) as e:
     die(str(e))
+for st in parsed: check_canonical(st)
+if '--print-pins' in sys.argv:
+    print({p_: token_sha(p_) for p_ in PINNED}); sys.exit(0)
+for p_, want in PINNED.items():
+    got = token_sha(p_)
+    if got != want:
+        die('%s changed (token hash %s, the codec combinators of Sucds/Model/Serial.lean model the text with hash %s): the generic Serializable impls of Option/Vec/integers/bool are no longer the code the C08/C13 theorems are about' % (p_, got, want))
 
 H = ['-- GENERATED by tools/gen_codecs.py from the `Serializable` impls of the Rust sources; do not edit.',
      'import Sucds.Model.Serial', 'import Sucds.Model.WaveletMatrix',
